@@ -177,7 +177,12 @@ func (f *Frame) mapStore(mt types.Type, m, k *Term, v *Val) {
 	f.E.noteVars(l)
 	f.st.Set(mk.length, ArrayS(IntS, IntS), f.E.name(Store(l, m, Ite(had, Select(l, m), Add(Select(l, m), IntLit(1)))), f.prefix+"s$"+mk.length))
 	if len(mk.vleaves) > 0 {
-		vs := v.leaves()
+		var vs []*Term
+		if v.K == VAddr && v.Addr != nil && v.Addr.Kind == AElem && v.Addr.Path == "" {
+			vs = []*Term{f.elemPtr(v.Addr)}
+		} else {
+			vs = v.leaves()
+		}
 		for i, lf := range mk.vleaves {
 			key := mk.vkey + lf.path
 			s := ArrayS(IntS, ArrayS(mk.ksort, lf.sort))
